@@ -195,7 +195,7 @@ def handle (op : String) (a : List String) (impl : String) : Option Verdict :=
     match projectionNew shape toShape with
     | .ok (pf, pt) =>
       let row : List XR := (projectIter pf idx pt).map (fun (x : XR) => x * w)
-      if impl.startsWith "OK " then pure (cmpArr (impl.drop 3).toString toShape row (some wabs)
+      if impl.startsWith "OK " then pure (cmpArrRel (impl.drop 3).toString toShape row (some wabs)
         s!"project-row-{if pf.any (· ≥ 1030) then "ge1030" else if pf.any (· > 170) then "171to1029" else "le170"}")
       else pure (.bad s!"OK {showNats toShape}|{showXRs row}")
     | .error _ => pure (if impl.startsWith "ERR" then .ok "project-row-error" else .bad "ERR")
